@@ -36,6 +36,7 @@ type c05Params struct {
 	Output    string   `json:"output"`             // blocks | rows | cli
 	Swap      bool     `json:"swap"`               // list the branches in reverse order
 	Identity  string   `json:"identity,omitempty"` // "", "X-base", "X-X"
+	NoFF      string   `json:"no_ff,omitempty"`    // cli + X-base: the unchanged branch stays at the base commit and fast-forward is disabled by "flag" or "config"
 }
 
 type branchScript struct {
@@ -75,6 +76,18 @@ func genMergeTuple(rng *rand.Rand, p *c05Params) (*model.Tbl, []*model.Tbl, [][]
 		}
 	}
 	keyless := len(base.PK) == 0
+	// empty cells in the base: an empty string is a value like any other
+	if !keyless && len(nonKey) > 0 {
+		for _, r := range base.Rows {
+			if rng.Intn(8) == 0 {
+				for ci, c := range base.Cols {
+					if c == nonKey[rng.Intn(len(nonKey))] {
+						r[ci] = ""
+					}
+				}
+			}
+		}
+	}
 	branches := make([]*model.Tbl, p.Branches)
 	scripts := make([][]string, p.Branches)
 	for i := range branches {
@@ -114,7 +127,10 @@ func genMergeTuple(rng *rand.Rand, p *c05Params) (*model.Tbl, []*model.Tbl, [][]
 				continue
 			}
 			b.Rows[ri][ci] = fmt.Sprintf("E%d_%d", i, step)
-			log(i, "edit %s.%s", key, c)
+			if rng.Intn(3) == 0 {
+				b.Rows[ri][ci] = "" // clearing a cell is an edit
+			}
+			log(i, "edit %s.%s = %q", key, c, b.Rows[ri][ci])
 		case "remove":
 			if len(b.Rows) <= 1 {
 				continue
@@ -234,6 +250,9 @@ func genMergeTuple(rng *rand.Rand, p *c05Params) (*model.Tbl, []*model.Tbl, [][]
 				}
 				if op == "conflict" {
 					bb.Rows[ri][ci] = fmt.Sprintf("C%d_%d", j, step)
+					if step%3 == j {
+						bb.Rows[ri][ci] = "" // one side clears the cell, the other rewrites it
+					}
 				} else {
 					bb.Rows[ri][ci] = fmt.Sprintf("SAME_%d", step)
 				}
@@ -471,7 +490,7 @@ func c05Run(c *fw.Case, env *fw.Env) *fw.Obs {
 	var out *mergeOutcome
 	if p.Output == "cli" {
 		var inconclusive string
-		out, inconclusive = runMergeCLI(o, env, c.ID, base, branches, exp, class)
+		out, inconclusive = runMergeCLI(o, env, c.ID, base, branches, exp, class, &p, scripts)
 		if inconclusive == "FALLBACK" {
 			o.Ev("cli_fallback_to_pkg", 1)
 			p.Output = "rows"
@@ -667,7 +686,7 @@ func c05Compare(o *fw.Obs, base *model.Tbl, branches []*model.Tbl, exp *model.Me
 }
 
 // runMergeCLI drives the same tuple through `wrgl merge` in-process.
-func runMergeCLI(o *fw.Obs, env *fw.Env, id string, base *model.Tbl, branches []*model.Tbl, exp *model.MergeExpect, class string) (*mergeOutcome, string) {
+func runMergeCLI(o *fw.Obs, env *fw.Env, id string, base *model.Tbl, branches []*model.Tbl, exp *model.MergeExpect, class string, p *c05Params, scripts [][]string) (*mergeOutcome, string) {
 	root := filepath.Join(env.Dir, "repo-"+id)
 	os.RemoveAll(root)
 	defer os.RemoveAll(root)
@@ -709,8 +728,16 @@ func runMergeCLI(o *fw.Obs, env *fw.Env, id string, base *model.Tbl, branches []
 	}
 	rd.Close()
 	for i, b := range branches {
+		if p.NoFF != "" && len(scripts[i]) == 1 && scripts[i][0] == "= base" {
+			continue // this branch IS the base commit: the other one descends from it
+		}
 		if e := commit(fmt.Sprintf("b%d", i), b); e != "" {
 			return nil, e
+		}
+	}
+	if p.NoFF == "config" {
+		if out, err, pn := mon.Wrgl(wd, nil, "config", "set", "merge.fastForward", "never"); err != nil || pn != "" {
+			return nil, fmt.Sprintf("config: %v %s %s", err, pn, out)
 		}
 	}
 	cwd, _ := os.Getwd()
@@ -797,6 +824,12 @@ func runMergeCLI(o *fw.Obs, env *fw.Env, id string, base *model.Tbl, branches []
 		return out, ""
 	}
 	args = append(args, "--no-progress", "-n", "4")
+	if p.NoFF == "flag" {
+		args = append(args, "--no-ff")
+	}
+	if p.NoFF != "" {
+		o.Ev("cli_no_ff_merges", 1)
+	}
 	stdout, err, pn := mon.Wrgl(wd, nil, args...)
 	if pn != "" {
 		o.Violate("panic/wrgl-merge/"+class, "%s", pn)
@@ -910,6 +943,12 @@ func init() {
 				if rng.Intn(3) == 0 {
 					p.Ops = []string{"edit", "conflict", "remove-vs-edit"}
 				} else {
+					p.Ops = []string{"edit", "add", "remove", "coladd", "reorder"}
+				}
+				if i%4 == 3 {
+					p.PK = []int{0} // key position plays no part on this path; keeps the case clear of the open key-not-first finding
+					// one commit is the ancestor of the other and fast-forward is disabled: a merge commit carrying X
+					p.Identity, p.NoFF, p.Swap = "X-base", []string{"flag", "config"}[rng.Intn(2)], rng.Intn(2) == 0
 					p.Ops = []string{"edit", "add", "remove", "coladd", "reorder"}
 				}
 				l.Add("cli", p, 0)
